@@ -112,7 +112,10 @@ func (c *Cand) render(name string) string {
 	case c.decl != "":
 		return strings.ReplaceAll(c.decl, "$n", c.ID)
 	case c.expr != "" && c.stage == 1:
-		return fmt.Sprintf("func %s%s(%s) %s {\n\tif b {\n\t\t_ = %s\n\t}\n\treturn %s\n}", name, c.tps, c.params, c.rtype, c.expr, c.expr)
+		// the value flows to a result of its exact type, directly and through an addressed
+		// local; the second result makes every such function one with a pointer-like result,
+		// which is what the nilness fact analysis looks at
+		return fmt.Sprintf("func %s%s(%s) (%s, *%s) {\n\tv := %s\n\tif b {\n\t\treturn v, nil\n\t}\n\treturn %s, &v\n}", name, c.tps, c.params, c.rtype, c.rtype, c.expr, c.expr)
 	case c.expr != "":
 		return fmt.Sprintf("func %s%s(%s) {\n\t_ = %s\n}", name, c.tps, c.params, c.expr)
 	default:
@@ -521,18 +524,18 @@ func (ck *checker) filter(cands []*Cand, fam string) []*Cand {
 // representative kinds for the grids whose templates are mostly type-insensitive (decl, lib):
 // these x every template are always generated; the other kinds are sampled by seed in quick.
 // kinds paired with the type-insensitive ("universal") contexts in quick
-var univKinds = map[string]bool{"int": true, "string": true, "error": true, "any": true, "unsafe.Pointer": true, "NInt": true, "APtr": true, "[4]byte": true, "[0]int": true,
-	"[]int": true, "NSl": true, "map[string]int": true, "chan int": true, "func()": true, "iter.Seq[int]": true, "NFn": true, "*int": true, "*[4]byte": true,
-	"*St": true, "NPSt": true, "St": true, "Empty": true, "EmbG": true, "Gen[int]": true, "Rec": true, "IfM": true,
-	"tp:any": true, "tp:comparable": true, "tp:~int|~string": true, "tp:*[4]byte|*[8]byte": true, "tp:[]int|map[int]int": true, "tp:IfM": true, "tp:St|Emb": true,
-	"tp:empty": true, "tp2:P~[]E": true, "tp2:P*E+M": true, "tp2:[]E": true, "tp2:Gen[E]": true}
+var univKinds = map[string]bool{"int": true, "string": true, "error": true, "unsafe.Pointer": true, "NInt": true, "[4]byte": true,
+	"[]int": true, "map[string]int": true, "chan int": true, "func()": true, "iter.Seq[int]": true, "*[4]byte": true,
+	"*St": true, "St": true, "EmbG": true, "Gen[int]": true, "IfM": true,
+	"tp:any": true, "tp:~int|~string": true, "tp:*[4]byte|*[8]byte": true, "tp:[]int|map[int]int": true, "tp:IfM": true,
+	"tp:empty": true, "tp2:P~[]E": true, "tp2:P*E+M": true, "tp2:Gen[E]": true}
 
 // kinds paired with every declaration template in quick
 var declKinds = map[string]bool{"int": true, "string": true, "St": true, "*St": true, "[]int": true, "NInt": true, "func()": true, "IfM": true, "tp:any": true, "tp2:P~[]E": true}
 
 var repKinds = map[string]bool{"int": true, "string": true, "[]byte": true, "error": true, "St": true, "*St": true,
-	"[]int": true, "NInt": true, "map[string]int": true, "chan int": true, "func()": true, "iter.Seq[int]": true, "IfM": true, "float64": true,
-	"tp:any": true, "tp:~[]byte|~string": true, "tp:Num": true, "tp2:P~[]E": true, "tp2:[]E": true}
+	"[]int": true, "map[string]int": true, "chan int": true, "func()": true, "iter.Seq[int]": true, "float64": true,
+	"tp:any": true, "tp:~[]byte|~string": true, "tp2:P~[]E": true}
 
 func main() {
 	out := flag.String("out", "", "output directory (scratch module)")
@@ -543,6 +546,7 @@ func main() {
 	budget := flag.String("budget", "", "override sample sizes: ctxrest,convrest,convforms,stmt3,declrest,librest (comma separated numbers, -1 = all)")
 	gover := flag.String("go", "1.26", "go directive of the generated module")
 	workers := flag.Int("j", 8, "parallel type-check workers")
+	restOnly := flag.Bool("restonly", false, "emit only the seed-sampled parts (escalated failing-input search: the exhaustive parts were linted already)")
 	flag.Parse()
 	if *out == "" {
 		fatal("-out required")
@@ -553,9 +557,9 @@ func main() {
 	want := func(f string) bool { return *only == "" || strings.Contains(","+*only+",", ","+f+",") }
 
 	// sample sizes (by case count, never by time); -1 = exhaustive
-	nCtxRest, nConvRest, nConvForms, nStmt3, nDeclRest, nLibRest := -1, -1, 30000, 8000, -1, -1
+	nCtxRest, nConvRest, nConvForms, nStmt3, nDeclRest, nLibRest := -1, -1, 10000, 6000, 10000, 8000
 	if quick {
-		nCtxRest, nConvRest, nConvForms, nStmt3, nDeclRest, nLibRest = 900, 250, 250, 400, 400, 300
+		nCtxRest, nConvRest, nConvForms, nStmt3, nDeclRest, nLibRest = 600, 150, 150, 300, 300, 200
 	}
 	if *budget != "" {
 		fmt.Sscanf(*budget, "%d,%d,%d,%d,%d,%d", &nCtxRest, &nConvRest, &nConvForms, &nStmt3, &nDeclRest, &nLibRest)
@@ -652,21 +656,31 @@ func main() {
 		r := ck.filter(number(pre(rest, nCtxRest, 4)), "ctxrest")
 		r = sample(append(moved, r...), nCtxRest)
 		ck.stats["ctxrest.emitted"] = len(r)
+		if *restOnly {
+			g = nil
+		}
 		groups = append(groups, g, r)
 	}
 	if want("conv") {
-		// the plain conversion T(x) between every pair of kinds is always type-checked; pairs
-		// involving a type parameter are all kept, the others sampled. The other forms are sampled.
-		plain := ck.filter(number(convCands(kinds, kinds, convForms[:1])), "conv")
-		keep, rest := split(plain, func(c *Cand) bool { return isTP(c.Kind) != isTP(c.Kind2) || c.Kind == c.Kind2 })
+		// The plain conversion T(x): every pair (type parameter kind, ordinary kind) in both
+		// directions and every type parameter kind with itself is always type-checked and kept;
+		// the other pairs and the other conversion forms are sampled (all in thorough).
+		always, rest := split(convCands(kinds, kinds, convForms[:1]), func(c *Cand) bool { return isTP(c.Kind) != isTP(c.Kind2) || c.Kind == c.Kind2 })
+		keep := ck.filter(number(always), "conv")
 		ck.stats["conv.always"] = len(keep)
-		rest = sample(rest, nConvRest)
+		r := sample(ck.filter(number(pre(rest, nConvRest, 12)), "convrest"), nConvRest)
 		forms := sample(ck.filter(number(pre(convCands(kinds, kinds, convForms[1:]), nConvForms, 5)), "convforms"), nConvForms)
-		ck.stats["conv.emitted"] = len(keep) + len(rest) + len(forms)
-		groups = append(groups, append(append(keep, rest...), forms...))
+		if *restOnly {
+			keep = nil
+		}
+		ck.stats["conv.emitted"] = len(keep) + len(r) + len(forms)
+		groups = append(groups, append(append(keep, r...), forms...))
 	}
 	if want("stmt") {
 		g := ck.filter(number(stmtCands(nStmt3, quick, rng)), "stmt")
+		if *restOnly {
+			_, g = split(g, func(c *Cand) bool { return c.Kind != "depth3" })
+		}
 		groups = append(groups, g)
 	}
 	if want("decl") {
@@ -674,6 +688,9 @@ func main() {
 		g := ck.filter(number(always), "decl")
 		r := sample(ck.filter(number(pre(rest, nDeclRest, 2)), "declrest"), nDeclRest)
 		ck.stats["declrest.emitted"] = len(r)
+		if *restOnly {
+			g = nil
+		}
 		groups = append(groups, append(g, r...))
 	}
 	if want("lib") {
@@ -681,6 +698,9 @@ func main() {
 		g := ck.filter(number(always), "lib")
 		r := sample(ck.filter(number(pre(rest, nLibRest, 4)), "librest"), nLibRest)
 		ck.stats["librest.emitted"] = len(r)
+		if *restOnly {
+			g = nil
+		}
 		groups = append(groups, append(g, r...))
 	}
 
